@@ -462,10 +462,32 @@ def rule_visit(ctx: Ctx):
             f = e.term.func
             if isinstance(f, ast.Attribute) and show(f.value) == work and f.attr in ("append", "extend", "appendleft", "extendleft", "insert"):
                 feeds.append((e, p))
+        # index-based queue (`while i < len(work): cur = work[i]; i += 1`): the loop tests must count 0, 1, 2, ...
+        idx_tests = []
+        for b in p.of("branch"):
+            t = expand1(b.term, evs) if b.term is not None else None
+            if isinstance(t, ast.Compare) and len(t.ops) == 1 and isinstance(t.ops[0], ast.Lt) and isinstance(t.left, ast.Constant) \
+                    and type(t.left.value) is int and show(t.comparators[0]) == f"len({work})":
+                idx_tests.append((b, t.left.value))
+        if idx_tests:
+            rep.check([i for _, i in idx_tests] == list(range(len(idx_tests))), "C09.visit", fn.loc(),
+                      "the index-based worklist is read front to back, one position per round", fn.key,
+                      f"loop tests at positions {[i for _, i in idx_tests]}")
         for y in p.of("yield"):
             n_y += 1
             popped = [e for e in evs[: y.idx] if e.kind == "call" and isinstance(e.term.func, ast.Attribute) and show(e.term.func.value) == work
                       and e.term.func.attr in ("popleft", "pop")]
+            if not popped and idx_tests:
+                # the element at the position the last passed loop test admitted
+                adm = [(b, i) for b, i in idx_tests if b.idx < y.idx and b.x["taken"]]
+                cur = f"{work}[{adm[-1][1]}]" if adm else "?"
+                seg = evs[adm[-1][0].idx: y.idx] if adm else []
+                guard = [b for b in seg if b.kind == "branch" and isinstance(b.term, ast.Compare) and isinstance(b.term.ops[0], ast.In)
+                         and show(b.term.left) == cur and show(b.term.comparators[0]) == visited and b.x["taken"] is False]
+                added = [c for c in seg if c.kind == "call" and show(c.term.func) == f"{visited}.add" and show(c.term.args[0]) == cur]
+                rep.check(show(y.term) == cur and bool(guard) and bool(added), "C09.visit", y.loc(),
+                          "a state is yielded at most once: only when it was not in the visited set, which it then joins", fn.key, norm_stmt(y.node))
+                continue
             cur = f"$c{popped[-1].idx}" if popped else "?"
             seg = evs[popped[-1].idx: y.idx] if popped else []
             guard = [b for b in seg if b.kind == "branch" and isinstance(b.term, ast.Compare) and isinstance(b.term.ops[0], ast.In)
@@ -502,6 +524,8 @@ def rule_visit(ctx: Ctx):
             # explicit loop form: for t in <cur>.transitions: work.append(t.<attr>)
             src = expand1(arg.value.value.value, p.events)
             cur_ok = isinstance(src, ast.Call) and isinstance(src.func, ast.Attribute) and src.func.attr in ("popleft", "pop")
+            cur_ok = cur_ok or (isinstance(src, ast.Subscript) and isinstance(src.slice, ast.Constant) and type(src.slice.value) is int
+                                and show(src.value) == show(e.term.func.value))
             if not cur_ok:
                 s2 = arg.value.value.value
                 cur_ok = isinstance(s2, ast.Name) and s2.id.startswith("$c")
